@@ -37,13 +37,13 @@ BASE_TYPES = ["bool", "byte", "i16", "i32", "i64", "double", "string", "binary"]
 # ----------------------------------------------------------------------------------------------
 # IDL program generator
 
-def gen_program(rng, nfiles, twins=True, vendor=True):
+def gen_program(rng, nfiles, twins=True, vendor=True, main_dir=""):
     """Returns dict(files={relpath: text}, meta={relpath: {...}}, main=relpath).
     File 0 is the main file; file i may include files j > i (acyclic)."""
     dirs = ["", "", "sub1/", "sub2/", "sub1/deep/"]
     names, paths = [], []
     for i in range(nfiles):
-        d = "" if i == 0 else rng.choice(dirs)
+        d = main_dir if i == 0 else rng.choice(dirs)
         n = "main" if i == 0 else rng.choice(["mod%d", "Mod%d", "m%d_x", "zz%d", "a%d"]) % i
         names.append(n)
         paths.append(d + n + ".frugal")
@@ -299,7 +299,7 @@ def run(ctx, br):
     programs = []
     for k in range(n_prog):
         nfiles = rng.randrange(10, 15) if quick else rng.randrange(10, 22)
-        prog = gen_program(rng, nfiles, twins=(k % 2 == 0), vendor=True)
+        prog = gen_program(rng, nfiles, twins=(k % 2 == 0), vendor=True, main_dir=("" if k % 3 != 1 else "sub1/app/"))
         prog["id"] = k
         programs.append(prog)
     # hand-made regression program: same-named modules in different directories (html index order)
@@ -312,6 +312,17 @@ def run(ctx, br):
                   "b/x.frugal": "struct B { 1: i32 b }\nservice SB { void pingB() }\n"},
         "meta": {"main.frugal": {"scopes_src": []}, "y.frugal": {"scopes_src": []},
                  "a/x.frugal": {"scopes_src": []}, "b/x.frugal": {"scopes_src": []}}})
+
+    # hand-made: the main file lies in a sub-directory and a same-named module is reached through "../"
+    programs.append({
+        "id": n_prog + 1, "main": "proj/main.frugal", "n_files": 4, "n_includes_main": 2, "n_includes_total": 3,
+        "twins": True, "vendored": 0,
+        "files": {"proj/main.frugal": 'include "a/common.frugal"\ninclude "mid.frugal"\nstruct M { 1: common.A a, 2: mid.Y y }\n',
+                  "proj/mid.frugal": 'include "../zlib/common.frugal"\nstruct Y { 1: common.B b }\n',
+                  "proj/a/common.frugal": "struct A { 1: i32 a }\nservice SA { void pingA() }\n",
+                  "zlib/common.frugal": "struct B { 1: i32 b }\nservice SB { void pingB() }\n"},
+        "meta": {"proj/main.frugal": {"scopes_src": []}, "proj/mid.frugal": {"scopes_src": []},
+                 "proj/a/common.frugal": {"scopes_src": []}, "zlib/common.frugal": {"scopes_src": []}}})
 
     # --replay <file>: only the program and target of the recorded violation
     rep = getattr(ctx, "replaying", None)
@@ -350,6 +361,11 @@ def run(ctx, br):
             jobs.append((prog, gen, "abs-file-other-cwd", work, os.path.join(a, prog["main"]), o, o))
             # sources at a different absolute root, relative -out below the cwd
             jobs.append((prog, gen, "other-root-rel-out", b, prog["main"], "out_%s" % tag, os.path.join(b, "out_%s" % tag)))
+            # cwd is the directory of the main file (when that is not the source root): bare file name
+            if os.path.dirname(prog["main"]):
+                o = os.path.join(outs, tag, "maindir")
+                jobs.append((prog, gen, "maindir-cwd", os.path.join(a, os.path.dirname(prog["main"])),
+                             os.path.basename(prog["main"]), o, o))
             # cwd is the parent of the source root; relative file and an unclean relative -out
             par = os.path.dirname(b)
             jobs.append((prog, gen, "parent-cwd-unclean-out", par, os.path.join(os.path.basename(b), prog["main"]),
